@@ -295,6 +295,7 @@ def run(ctx):
             impl.append("ok")
         model = ctx.driver.ask(ops)
         kit.compare(res, ops, impl, model)
+    long_bulk_download(ctx, res)
     # relayed blocks must reach the peers' sockets, not only their queues
     lines_ = chain.patch(horizon=-1)
     keys_ = chain.Keys(rng, 4)
@@ -377,4 +378,60 @@ def side_branch_probe(ctx, res, classes, prop):
                                                   rn.cm.coinstate.head().height, s2.height),
                                        "blocks": [b.serialize().hex() for b in (s1, c[0] if c else s1, s2)]})
         rn.close()
+    chain.unpatch()
+
+
+def long_bulk_download(ctx, res):
+    """a refused block at the end of a long bulk download: 9, 99 and 999 blocks are adopted without full validation (they sit in
+    the store's write buffer), then a peer relays a block on top that fails full validation — the node falls back, the buffer is
+    dropped, and neither the refused block nor anything the chain state does not hold is in the store. Monitors only."""
+    from skepticoin.coinstate import CoinState
+    from skepticoin.datatypes import Block, BlockHeader, BlockSummary, PowEvidence
+    rng = ctx.rng
+    chain.patch(horizon=-1)
+    keys = chain.Keys(rng, 2)
+    g = chain.genesis_block()
+
+    def cheap(parent, k):
+        """valid by itself (id below its own — easiest — target, commitment, reward data), never offered to full validation"""
+        h = parent.height + 1
+        cb = ledger.coinbase(h, chain.subsidy(h), keys.pk(k % 2), data=b"bulk")
+        s_ = BlockSummary(h, parent.hash(), consensus.calc_merkle_root_hash([cb]), parent.timestamp + 60, b"\xff" * 32, k)
+        return Block(BlockHeader(s_, PowEvidence(b"\x01" * 32, b"\x02" * 32, b"\x03" * 32)), [cb])
+
+    blocks, cur = [], g
+    for k in range(1001):
+        cur = cheap(cur, k)
+        blocks.append(cur)
+    rn = node.RealNode(CoinState.empty().add_block_no_validation(g), [])
+    rn.add_peer(active=True)
+    rn.add_peer(active=True)
+    for n in (9, 99, 999):
+        for b in blocks[:n]:
+            node.CLOCK[0] = b.timestamp + 5
+            rn.deliver_block(0, b, 41)
+        adopted = blocks[n - 1].hash() in rn.cm.coinstate.block_by_hash
+        bad = cheap(blocks[n - 1], 7777)
+        node.CLOCK[0] = bad.timestamp + 5
+        rn.deliver_block(1, bad, 0)
+        state_ids = set(rn.cm.coinstate.block_by_hash)
+        disk = set(rn.disk_ids())
+        res.case(("long-bulk-download", n), nontrivial=True)
+        res.count("refused_block_after_%d_buffered_blocks" % n)
+        if not adopted:
+            res.notes.append("bulk download of %d blocks was not adopted" % n)
+        problems = []
+        if bad.hash() in state_ids:
+            problems.append("the refused block is part of the chain state")
+        if bad.hash() in disk:
+            problems.append("the refused block was written to the block store")
+        if rn.store.write_buffer:
+            problems.append("the write buffer still holds %d block(s)" % len(rn.store.write_buffer))
+        extra = disk - state_ids
+        if extra:
+            problems.append("the store holds %d block(s) that are not in the chain state" % len(extra))
+        for msg in problems:
+            res.violations.append({"kind": "a block relayed on top of %d blocks adopted during a bulk download fails full validation: %s"
+                                           % (n, msg), "refused_block": bad.serialize().hex(), "buffered_before": n})
+    rn.close()
     chain.unpatch()
